@@ -190,6 +190,7 @@ class Table:
     def __init__(self, data:Union[Mapping, Sequence[Mapping], Sequence[Sequence]] = (), columns: Sequence[str] = (), indexes: Sequence[str]= ()):
         self._columns = tuple(columns) or tuple(data)
         self._lohis   = None
+        self._indexes = ()
 
         data_is_view            = isinstance(data,View)
         data_is_mapping_of_cols = isinstance(data,collections.abc.Mapping)
@@ -257,7 +258,8 @@ class Table:
             for hdr,col in zip(self._columns,zip(*data)):
                 self._data[hdr].extend(col)
 
-        if self._lohis: self._lohis = {}
+        #the new rows are appended so an indexed table may no longer be sorted (see _resort)
+        if self._indexes: self._lohis = {}
 
         return self
 
@@ -300,6 +302,8 @@ class Table:
         if not row_pred and not kwargs:
             return self
 
+        self._resort()
+
         if row_pred:
             selection = list(compress(count(),map(row_pred,self)))
             return Table(View(self._data,selection), self._columns, self._indexes)
@@ -322,6 +326,7 @@ class Table:
             return Table(View(self._data,selection), self._columns, self._indexes)
 
     def groupby(self, level:int, select:Union[Literal['count'],str,Sequence[str]]=None) -> Iterable[Tuple[Tuple,Any]]:
+        self._resort()
         self._lohis = self._lohis or self._calc_lohis()
         grp_cols = [self._data[hdr] for hdr in self._indexes[:level]]
 
@@ -403,6 +408,13 @@ class Table:
     def _ipython_display_(self):
         #pretty print in jupyter notebook (https://ipython.readthedocs.io/en/stable/config/integrating.html)
         print(str(self))
+
+    def _resort(self):
+        #rows inserted into an indexed table are sorted lazily, on the first query after
+        #the inserts. When the rows were inserted in index order this is a single linear pass.
+        if self._indexes and self._lohis == {}:
+            indexes, self._indexes = self._indexes, ()
+            self.index(*indexes)
 
     def _calc_lohis(self):
         if not self._indexes: return {}
